@@ -96,6 +96,34 @@ func c09Origins(p *Prog, v ssa.Value, depth int, stop *ssa.Function) (vals []ssa
 			return c09Origins(p, r, depth, stop)
 		}
 	}
+	// a field of a carrier struct received by pointer (possibly handed on through several functions):
+	// what was put into the field where the carrier was built
+	if ld, isLd := strip(v).(*ssa.UnOp); isLd && ld.Op == token.MUL && depth > 0 {
+		if fa, isFA := ld.X.(*ssa.FieldAddr); isFA {
+			if pf, _ := c09ParamOf(fa.X); pf != nil && pf != stop {
+				if bases, ok := c09Origins(p, fa.X, depth, stop); ok && len(bases) > 0 {
+					var out []ssa.Value
+					okAll := true
+					for _, b := range bases {
+						w := c09FieldValue(b, fa.Field)
+						if w == nil {
+							okAll = false
+							break
+						}
+						sub, ok := c09Origins(p, w, depth-1, stop)
+						if !ok {
+							okAll = false
+							break
+						}
+						out = append(out, sub...)
+					}
+					if okAll {
+						return out, true
+					}
+				}
+			}
+		}
+	}
 	fn, idx := c09ParamOf(v)
 	if fn == nil || fn == stop {
 		return []ssa.Value{v}, true
@@ -279,7 +307,7 @@ func c09EffectSites(fn *ssa.Function, bind c09Bind, isEffect func(call ssa.CallI
 			out = append(out, call.(ssa.Instruction))
 			continue
 		}
-		g := StaticCallee(call)
+		g := c09Callee(call)
 		if g == nil || depth <= 0 || len(g.Blocks) == 0 || fnPkgPath(g) != fnPkgPath(fn) || g == fn {
 			continue
 		}
@@ -311,6 +339,22 @@ func c09MayBeNilAtom(g *ssa.Function, a RetAtom) bool {
 	return true
 }
 
+// c09Callee: the function called — also when it is a local closure kept in a
+// variable (`keep := func(…) {…}; keep(x)`), possibly captured by another closure.
+func c09Callee(call ssa.CallInstruction) *ssa.Function {
+	if g := StaticCallee(call); g != nil {
+		return g
+	}
+	cc := call.Common()
+	if cc.IsInvoke() {
+		return nil
+	}
+	if mc, ok := c09Resolved(cc.Value).(*ssa.MakeClosure); ok {
+		return mc.Fn.(*ssa.Function)
+	}
+	return nil
+}
+
 // c09HelperBind translates values of helper g's frame into the frame of its
 // call: parameters -> arguments; a field read through a pointer parameter
 // (r.tagResolver with r = &rebuilt) -> the value stored in that field of the
@@ -327,6 +371,10 @@ func c09HelperBind(call ssa.CallInstruction, g *ssa.Function, outer c09Bind) c09
 		}
 		ld, ok := strip(c09Resolved(v)).(*ssa.UnOp)
 		if !ok || ld.Op != token.MUL {
+			// a variable of the enclosing function captured by a local closure: its value there
+			if r := c09Resolved(v); r != nil && r != v && c09ParentOf(r) != g {
+				return outer(r)
+			}
 			return nil
 		}
 		switch a := ld.X.(type) {
@@ -827,6 +875,14 @@ func c09SitesOf(p *Prog, fn *ssa.Function) (sites []c09Site, closed bool) {
 			sites = append(sites, c09Site{c.(ssa.Instruction), func(v ssa.Value) ssa.Value {
 				if pf, i := c09ParamOf(v); pf == fn && i < len(args) {
 					return args[i]
+				}
+				// state carried in a field of a struct passed by pointer (r.graph with r = &carrier{…})
+				if ld, isLd := strip(v).(*ssa.UnOp); isLd && ld.Op == token.MUL {
+					if fa, isFA := ld.X.(*ssa.FieldAddr); isFA {
+						if pf, i := c09ParamOf(fa.X); pf == fn && i < len(args) {
+							return c09FieldValue(args[i], fa.Field)
+						}
+					}
 				}
 				return nil
 			}})
